@@ -23,14 +23,15 @@
    * `W_C03 (final_obs cs evs) = false` : the history did not go through one of four known check-then-act
      windows (known_findings.json): F20/F21 commit, F37 sdlag, F25 dup, F38 zombie.  The other three
      window flags (F26 late, F22 sdspawn, F32 stale) are NOT needed.
-   * `escapes_C03 cs evs = false` : nobody escaped a snapshot, i.e. (1) no instance was created after a
-     completed shutdown by Run()'s own spawn loop or outside any API call, and (2) at every
-     `EShutdownEnd` every instance that exists and is not in that shutdown's snapshot has already reached
-     `EInstExit` (its goroutine is over) or is "excused": created by a StartProcess/RestartProcess call,
-     never in a snapshot, and not yet begun by any goroutine (`EBegin`).  So an explicit start that overlaps
-     the shutdown is INSIDE the theorem (it waits for the registry lock that the shutdown holds); (2) fails
-     when Run()'s spawn loop overlaps the shutdown (F22) or - only in the model, not in the code - when an
-     instance was spawned without having been registered.
+   * `escapes_C03 cs evs = false` : nobody escaped a snapshot, i.e. (1) no instance was created by Run()'s
+     own spawn loop after a completed shutdown (`ENewInst` by a thread whose API call in progress is Run;
+     with the hardened model an instance can only be created inside Run / StartProcess / RestartProcess),
+     and (2) at every `EShutdownEnd` every instance that exists and is not in that shutdown's snapshot has
+     already reached `EInstExit` (its goroutine is over) or is "excused": created by a
+     StartProcess/RestartProcess call, never in a snapshot, and not yet begun by any goroutine (`EBegin`).
+     So an explicit start that overlaps the shutdown is INSIDE the theorem (it waits for the registry lock
+     that the shutdown holds); (2) fails when Run()'s spawn loop overlaps the shutdown (F22).
+     The window flag w_sdspawn cannot replace (1): see C03_windows_not_enough.
    No well-formedness condition on the configuration is needed. *)
 From Coq Require Import List ZArith NArith Bool.
 From PC.Base Require Import Assoc.
